@@ -46,12 +46,12 @@ int __real_close(int);
 #define MAXSLOT 10
 #define MAXWORK 6
 
-enum { K_USER, K_TIMER, K_IO, K_SIG, K_IOP, K__N };
-static const char *const kind_name[] = { "event_active", "event_add-timer", "event_add-io", "event_active-signal", "event_active-persistent-io" };
+enum { K_USER, K_TIMER, K_IO, K_SIG, K_IOP, K_IOW, K__N };
+static const char *const kind_name[] = { "event_active", "event_add-timer", "event_add-io", "event_active-signal", "event_active-persistent-io", "event_add-write-on-fd-with-reader" };
 enum { OP_TICKET, OP_DEL, OP_DEL_BLOCK, OP_DEL_NOBLOCK, OP_BREAK, OP_BEVWRITE, OP_BEVTOGGLE, OP_EVBUF, OP_CHAOS, OP_QUERY, OP__N };
 
 struct slot {
-	struct event *ev;
+	struct event *ev, *ev2;
 	int kind, idx, chaos;
 	int sp[2];
 	pthread_mutex_t own;
@@ -241,6 +241,7 @@ static void issue_ticket(struct slot *s, vh_rng *r, int wait)
 	case K_SIG: event_active(s->ev, EV_SIGNAL, (short)vh_range(r, 1, 3)); break;
 	case K_TIMER: if (event_add(s->ev, &tv10ms) != 0) viol("C09:api-failed", "event_add(timer) failed"); break;
 	case K_IO: if (event_add(s->ev, NULL) != 0) viol("C09:api-failed", "event_add(io) failed"); break;
+	case K_IOW: if (event_add(s->ev, NULL) != 0) viol("C09:api-failed", "event_add(io write) failed"); break;
 	}
 	if (wait) {
 		snprintf(what, sizeof(what), "cross-thread %s (slot %d, ticket %ld)", kind_name[s->kind], s->idx, t);
@@ -451,7 +452,7 @@ static int run_case(long idx, vh_rng rng)
 		s->kind = i < K__N ? i : (int)vh_below(&r, K__N);
 		s->chaos = !K.solo && i >= K__N && vh_chance(&r, 2, 3);
 		pthread_mutex_init(&s->own, NULL);
-		if (s->kind == K_IO || s->kind == K_IOP || s->chaos) {
+		if (s->kind == K_IO || s->kind == K_IOP || s->kind == K_IOW || s->chaos) {
 			evutil_socketpair(AF_UNIX, SOCK_STREAM, 0, s->sp); evutil_make_socket_nonblocking(s->sp[0]); evutil_make_socket_nonblocking(s->sp[1]);
 			if (s->kind == K_IO && !s->chaos) (void)__real_write(s->sp[1], "x", 1);   /* always readable, never drained */
 		}
@@ -460,6 +461,12 @@ static int run_case(long idx, vh_rng rng)
 		case K_TIMER: s->ev = event_new(K.base, -1, 0, slot_cb, s); break;
 		case K_IO: s->ev = event_new(K.base, s->sp[0], EV_READ, slot_cb, s); break;
 		case K_SIG: s->ev = event_new(K.base, SIGUSR2, EV_SIGNAL | EV_PERSIST, slot_cb, s); break;
+		case K_IOW:
+			/* the fd already carries a registered reader (never readable); the ticket adds the first writer (always
+			 * writable): a backend that keeps its interest set in user space has to be woken to see it */
+			s->ev2 = event_new(K.base, s->sp[0], EV_READ | EV_PERSIST, poke_cb, NULL); event_add(s->ev2, NULL);
+			s->ev = event_new(K.base, s->sp[0], EV_WRITE, slot_cb, s);
+			break;
 		default: s->ev = event_new(K.base, s->sp[0], EV_READ | EV_PERSIST, slot_cb, s); break;
 		}
 		if (vh_chance(&r, 1, 3)) event_priority_set(s->ev, 0);
@@ -562,6 +569,7 @@ static int run_case(long idx, vh_rng rng)
 	for (i = 0; i < K.nslots; i++) {
 		struct slot *s = &K.slot[i];
 		event_free(s->ev);
+		if (s->ev2) event_free(s->ev2);
 		if (s->sp[0] >= 0) { __real_close(s->sp[0]); __real_close(s->sp[1]); }
 		pthread_mutex_destroy(&s->own);
 	}
